@@ -37,6 +37,7 @@ def main():
         mod = importlib.import_module(f"props.{pid.lower()}")
         if args.replay:
             return mod.replay(json.load(open(args.replay)))
+        rep.clean_old_replays()
         broken = core.proof_stage(rep, pid, bres)
         relevant = [b for b in broken if mod.relevant_obligation(b)] \
             if hasattr(mod, "relevant_obligation") else broken
